@@ -1097,6 +1097,7 @@ type RandReq struct {
 	GraphEvery int     `json:"graphevery"`
 	GraphOut   string  `json:"graphout"`
 	Bias       string  `json:"bias"` // "grow": mostly inserts into one table (deep trees)
+	PageRT     bool    `json:"pagert"`   // C12 at store level: after every flush each page in the file decodes to what the cache held
 	OrderOut   string  `json:"orderout"` // order trace (locks, stamps, data-file and log writes) for WalOrder.tla
 }
 
@@ -1145,6 +1146,74 @@ func durableRecords(ios []storage.VerifIO, e int, keep bool) int {
 		return n
 	}
 	return synced
+}
+
+// flushChecked flushes the store; with roundTrip set it first takes the store's own view of every page (cached version
+// over the file), then compares it with what the data file alone decodes to afterwards: a page written to disk must
+// read back as the same page, and a page the store believes in must have been written.
+func flushChecked(w *World, roundTrip bool, stats map[string]int) (error, []string) {
+	if !roundTrip {
+		return storage.VerifFlush(w.sess.RelationService), nil
+	}
+	hv, view := storage.VerifDumpView(w.sess.RelationService)
+	if err := storage.VerifFlush(w.sess.RelationService); err != nil {
+		return err, nil
+	}
+	hf, file, err := storage.VerifDumpFile(filepath.Join(dbDir(), "tbl"))
+	if err != nil {
+		return nil, []string{"data file unreadable after a flush: " + err.Error()}
+	}
+	var probs []string
+	if hv != hf {
+		probs = append(probs, fmt.Sprintf("header in the file after a flush %+v, header the store works with %+v", hf, hv))
+	}
+	byID := map[int]storage.VerifPage{}
+	for _, p := range file {
+		byID[p.ID] = p
+	}
+	for _, p := range view {
+		f, ok := byID[p.ID]
+		if !ok {
+			f = storage.VerifPage{ID: p.ID, Kind: "Z"}
+		}
+		stats["pages-round-tripped"]++
+		if d := pageDiff(p, f); d != "" {
+			probs = append(probs, fmt.Sprintf("page %d: the store holds %s, the data file after the flush reads back as %s (%s)", p.ID, showPage(p), showPage(f), d))
+			if len(probs) > 4 {
+				break
+			}
+		}
+	}
+	return nil, probs
+}
+
+func showPage(p storage.VerifPage) string {
+	return fmt.Sprintf("{%s keys=%v dead=%v kids=%v l=%d r=%d lsn=%d}", p.Kind, p.Keys, p.Dead, p.Kids, p.L, p.R, p.LSN)
+}
+
+func pageDiff(a, b storage.VerifPage) string {
+	switch {
+	case a.Kind != b.Kind:
+		return "kind"
+	case fmt.Sprint(a.Keys) != fmt.Sprint(b.Keys):
+		return "keys"
+	case fmt.Sprint(a.Dead) != fmt.Sprint(b.Dead):
+		return "tombstones"
+	case fmt.Sprint(a.Kids) != fmt.Sprint(b.Kids):
+		return "children"
+	case a.L != b.L || a.R != b.R:
+		return "sibling links"
+	case a.LSN != b.LSN:
+		return "LSN"
+	case len(a.Vals) != len(b.Vals):
+		return "values"
+	}
+	for i := range a.Vals {
+		if string(a.Vals[i]) != string(b.Vals[i]) {
+			return fmt.Sprintf("value of cell %d", i)
+		}
+	}
+	return ""
 }
 
 func randomRun(rq RandReq) (res Result) {
@@ -1390,8 +1459,14 @@ func randomRun(rq RandReq) (res Result) {
 				}
 				continue
 			}
-			if fe := storage.VerifFlush(w.sess.RelationService); fe != nil {
+			fe, probs := flushChecked(w, rq.PageRT, res.Stats)
+			if fe != nil {
 				return fail("flush failed: " + fe.Error())
+			}
+			if len(probs) > 0 {
+				res.OK = false
+				res.Viol = append(res.Viol, probs...)
+				return
 			}
 		}
 		res.Stats["stmts"]++
@@ -1438,8 +1513,14 @@ func randomRun(rq RandReq) (res Result) {
 			continue
 		}
 		if rq.Cache == 0 && rng.Float64() < rq.PFlush {
-			if fe := storage.VerifFlush(w.sess.RelationService); fe != nil {
+			fe, probs := flushChecked(w, rq.PageRT, res.Stats)
+			if fe != nil {
 				return fail("flush failed: " + fe.Error())
+			}
+			if len(probs) > 0 {
+				res.OK = false
+				res.Viol = append(res.Viol, probs...)
+				return
 			}
 			ev(map[string]interface{}{"e": "pause", "what": "flush"})
 			res.Stats["flushes"]++
